@@ -7,7 +7,8 @@ const int LMAX = 1400;
 const char* RULE =
     "rapidcheck byte strings decoded into a history of 1..5 exponentials on one thread, each (n in 2..6; class: anti-Hermitian, normal "
     "W diag(z) W^dagger with bounded real spectrum, general dense, diagonal, nilpotent (permuted strictly triangular), triangular, "
-    "diagonal plus one tiny off-diagonal entry, widely different row scales, rank-one nilpotent u v^dagger; 1-norm log-uniform in 1e-8..1e3 for the normal classes and "
+    "diagonal plus one tiny off-diagonal entry, widely different row scales, rank-one nilpotent u v^dagger, sparse small-integer patterns "
+    "(an embedded 2x2/3x3 block, graph Laplacians, zero-row-sum, random sparse; times 1, -1 or i); 1-norm log-uniform in 1e-8..1e3 for the normal classes and "
     "1e-8..50 for the others), each checked. Oracle: |X-exp(A)|_F <= 64 eps (|L_exp(A)|_F |A|_F + |exp(A)|_F) against the closed form "
     "(normal, diagonal, nilpotent classes) or a long-double scaling-and-squaring Taylor reference, L_exp = Kronecker form of the Frechet "
     "derivative (analytic bound n e^{max Re z} for normal matrices); plus exp(A)exp(-A)=I, exp(A^T)=exp(A)^T, exp(PAP^T)=P exp(A) P^T. "
@@ -16,7 +17,7 @@ const char* RULE =
     "report the Pade band computed by the harness from exact power norms.";
 void harness_init() { quiet_gsl(); }
 
-static const char* CLS[] = {"antihermitian", "normal", "dense", "diagonal", "nilpotent", "triangular", "diag+tiny", "row-scales", "rank1-nilpotent"};
+static const char* CLS[] = {"antihermitian", "normal", "dense", "diagonal", "nilpotent", "triangular", "diag+tiny", "row-scales", "rank1-nilpotent", "sparse", "sparse"};
 
 struct ExpCase { int n; unsigned cls; Mat A; Mat exact; bool has_exact; ld cond_bound; bool has_cond; ld target; };
 
@@ -30,9 +31,9 @@ static ld gen_norm(ByteSource& s, double maxlog10) {
   return powl(10.0L, (ld)e);
 }
 static ExpCase gen_case(ByteSource& s) {
-  ExpCase c; c.n = gen_dim(s); c.cls = s.choose(9); c.has_exact = false; c.has_cond = false; c.cond_bound = 0;
+  ExpCase c; c.n = gen_dim(s); c.cls = s.choose(11); c.has_exact = false; c.has_cond = false; c.cond_bound = 0;
   int n = c.n;
-  bool normal_cls = c.cls == 0 || c.cls == 1;
+  bool normal_cls = c.cls == 0 || c.cls == 1 || c.cls >= 9;
   ld N = gen_norm(s, normal_cls ? 3.0 : log10(50.0));
   c.target = N;
   Mat B(n);
@@ -84,6 +85,48 @@ static ExpCase gen_case(ByteSource& s) {
       cld uv(0, 0), uu(0, 0); for (int i = 0; i < n; i++) { uv += std::conj(u[i]) * v[i]; uu += std::conj(u[i]) * u[i]; }
       for (int i = 0; i < n; i++) v[i] -= u[i] * (uv / uu);
       for (int i = 0; i < n; i++) for (int j = 0; j < n; j++) B.a[i][j] = u[i] * std::conj(v[j]);
+      break;
+    }
+    case 9: case 10: {  // sparse patterns with small-integer entries: matrices a sampling norm estimator can be blind to
+      unsigned mode = s.choose(8), phase = s.choose(3);
+      bool symmetric = false;
+      Mat R(n);
+      auto smallint = [&]() { int k = s.range(-3, 3); return (ld)(k == 0 ? 1 : k); };
+      if (mode <= 4) {  // k x k block on a subset of the levels, everything else zero
+        int k = 2 + (n > 2 ? (int)s.choose(2) : 0);
+        std::vector<int> idx(n); for (int i = 0; i < n; i++) idx[i] = i;
+        for (int i = n - 1; i > 0; i--) { int j = (int)s.choose(i + 1); std::swap(idx[i], idx[j]); }
+        if (mode <= 3) {  // the block is a weighted graph Laplacian: rows (and columns) of the whole matrix sum to zero
+          for (int a = 0; a < k; a++) for (int b = a + 1; b < k; b++) {
+            ld w = (ld)s.range(1, 3);
+            R.a[idx[a]][idx[b]] = R.a[idx[b]][idx[a]] = cld(-w, 0); R.a[idx[a]][idx[a]] += cld(w, 0); R.a[idx[b]][idx[b]] += cld(w, 0);
+          }
+          symmetric = true;
+        } else {
+          symmetric = s.flag();
+          for (int a = 0; a < k; a++) for (int b = a; b < k; b++) {
+            ld x = smallint();
+            R.a[idx[a]][idx[b]] = cld(x, 0);
+            R.a[idx[b]][idx[a]] = cld(symmetric || a == b ? x : smallint(), 0);
+          }
+        }
+      } else if (mode == 5) {  // weighted graph Laplacian on all levels
+        for (int i = 0; i < n; i++) for (int j = i + 1; j < n; j++) if (s.flag()) {
+          ld w = (ld)s.range(1, 3); R.a[i][j] = R.a[j][i] = cld(-w, 0); R.a[i][i] += cld(w, 0); R.a[j][j] += cld(w, 0);
+        }
+        symmetric = true;
+      } else if (mode == 6) {  // zero row sums only
+        for (int i = 0; i < n; i++) { ld sum = 0; for (int j = 0; j < n; j++) if (j != i && s.flag()) { ld w = smallint(); R.a[i][j] = cld(w, 0); sum += w; } R.a[i][i] = cld(-sum, 0); }
+      } else {
+        for (int i = 0; i < n; i++) for (int j = 0; j < n; j++) if (s.choose(3) == 0) R.a[i][j] = cld(smallint(), s.flag() ? (double)smallint() : 0.0);
+      }
+      bool antiherm = symmetric && phase == 2;
+      if (s.flag()) N = powl(10.0L, 3 * (ld)s.unif01());  // half of the class in the scaling-and-squaring range
+      if (!antiherm && N > 50) N = 50 * (N / 1000);  // the wide norm range is for the normal, bounded-spectrum matrices only
+      c.target = N;
+      cld ph = phase == 0 ? cld(1, 0) : phase == 1 ? cld(-1, 0) : cld(0, 1);
+      B = scale(R, ph);
+      if (antiherm) { c.cond_bound = (ld)n; c.has_cond = true; }
       break;
     }
     default: {
@@ -148,18 +191,29 @@ static ld check_exp(const ExpCase& c, CaseInfo& ci, Mat* Xout, Mat* Eout) {
 
 // (cases run on a fresh thread: harness.h default) - the per-thread scratch and, for C07, the call history start from scratch
 void run_case(ByteSource& s, CaseInfo& ci) {
-  unsigned sub = s.choose(4);
-  if (sub == 3) {  // UTransform(V, i s)
+  unsigned sub = s.choose(5);
+  if (sub >= 3) {  // UTransform(V, i s); sub 4: V a sparse small-integer Hermitian pattern
     int d = gen_dim(s);
     Mat W = gen_unitary(s, d);
     std::vector<ld> lam(d); for (auto& x : lam) x = (ld)(3 * s.dense());
     Mat D(d); for (int i = 0; i < d; i++) D.a[i][i] = cld(lam[i], 0);
-    std::vector<ld> vc = fromM(W * D * dagger(W));
+    Mat HV = W * D * dagger(W);
+    if (sub == 4) {
+      HV = Mat(d);
+      unsigned mode = s.choose(3);
+      std::vector<int> idx(d); for (int i = 0; i < d; i++) idx[i] = i;
+      for (int i = d - 1; i > 0; i--) { int j = (int)s.choose(i + 1); std::swap(idx[i], idx[j]); }
+      if (mode == 0) { HV.a[idx[0]][idx[0]] = HV.a[idx[1]][idx[1]] = cld(1, 0); HV.a[idx[0]][idx[1]] = HV.a[idx[1]][idx[0]] = cld(-1, 0); }
+      else if (mode == 1) { for (int i = 0; i < d; i++) for (int j = i + 1; j < d; j++) if (s.flag()) { ld w = (ld)s.range(1, 3); HV.a[i][j] = HV.a[j][i] = cld(-w, 0); HV.a[i][i] += cld(w, 0); HV.a[j][j] += cld(w, 0); } }
+      else { for (int i = 0; i < d; i++) for (int j = i; j < d; j++) if (s.choose(3) == 0) { cld w((ld)s.range(-2, 2), i == j ? 0.0L : (ld)s.range(-2, 2)); HV.a[i][j] = w; HV.a[j][i] = std::conj(w); } }
+    }
+    std::vector<ld> vc = fromM(HV);
     std::vector<double> v(d * d); for (int i = 0; i < d * d; i++) v[i] = (double)vc[i];
     double sc = s.flag() ? (double)gen_norm(s, 2.3) : s.num(6);
     if (s.flag()) sc = -sc;
+    if (sub == 4) { ld nv = norm1(HV); if (fabsl((ld)sc) * nv > 1000) sc = (double)((ld)sc * (1000 / (fabsl((ld)sc) * nv))); }  // stay inside the stated norm range
     std::vector<double> a = gen_dense(s, d);
-    ci.label(fmt("utransform-d%d", d));
+    ci.label(fmt("utransform-d%d", d)); if (sub == 4) ci.label("utransform-sparse-V");
     ci.sample = fmt("UTransform(V,i*s) d=%d s=%.17g V=%s A=%s", d, sc, vec_str(v).c_str(), vec_str(a).c_str());
     SU_vector V = make_vec(v, d), A = make_vec(a, d);
     Mat MV = toM(v, d);
@@ -168,7 +222,7 @@ void run_case(ByteSource& s, CaseInfo& ci) {
     try { R = A.UTransform(V, gsl_complex_rect(0.0, sc)); }
     catch (const std::exception& e) { throw Fail(fmt("C07|UTransform|throws|d=%d", d), fmt("exception '%s' :: %s", e.what(), ci.sample.c_str())); }
     std::vector<cld> ph(d); for (int i = 0; i < d; i++) ph[i] = cld(0, (ld)sc * lam[i]);
-    Mat U = W * expm_diag(ph) * dagger(W);  // exp(i s V)
+    Mat U = sub == 4 ? expm_ref(scale(toM(v, d), cld(0, (ld)sc))) : W * expm_diag(ph) * dagger(W);  // exp(i s V)
     Mat MA = toM(a, d);
     std::vector<ld> want = fromM(dagger(U) * MA * U);
     ld amax = max_abs(a);
@@ -228,7 +282,7 @@ void run_case(ByteSource& s, CaseInfo& ci) {
 }
 void enumerate(const Emit&, const std::string&) {}
 
-// fixed findings 1fa82e3 (every non-diagonal 2x2 exponential threw) and 36de8f6 (order-9 approximant without its A^8 terms)
+// fixed findings 1fa82e3 (every non-diagonal 2x2 exponential threw), 36de8f6 (order-9 approximant without its A^8 terms), 35624de (estimator returning 0)
 void regressions() {
   CaseInfo ci;
   { ExpCase c; c.n = 2; c.cls = 6; c.has_exact = false; c.has_cond = false; c.cond_bound = 0; c.target = 0.01; c.A = Mat(2); c.A.a[0][1] = cld(0.01, 0); check_exp(c, ci, nullptr, nullptr); }
@@ -237,6 +291,13 @@ void regressions() {
     ExpCase c; c.n = n; c.cls = 2; c.has_exact = false; c.has_cond = false; c.cond_bound = 0; c.target = nrm; Mat B(n);
     for (int i = 0; i < n; i++) for (int j = 0; j < n; j++) B.a[i][j] = cld(std::sin(1.0 + i + 2.0 * j), std::cos(0.5 + 3.0 * i - j));
     c.A = round_to_double(scale(B, cld((ld)nrm / norm1(B), 0)));
+    check_exp(c, ci, nullptr, nullptr);
+  }
+  // 35624de: norm estimator blind to zero-row-sum blocks (estimate 0): i*s*[[1,-1],[-1,1]] on two levels of a larger matrix, repeated so that
+  // the estimator's random columns vary; small norms picked too low an order, large ones skipped the scaling
+  for (int n = 3; n <= 6; n++) for (int a = 0; a < n; a++) for (int b = a + 1; b < n; b++) for (double sN : {0.137, 1.5, 40.0}) for (int rep = 0; rep < 6; rep++) {
+    ExpCase c; c.n = n; c.cls = 9; c.has_exact = false; c.has_cond = true; c.cond_bound = n; c.target = 2 * sN; c.A = Mat(n);
+    c.A.a[a][a] = c.A.a[b][b] = cld(0, sN); c.A.a[a][b] = c.A.a[b][a] = cld(0, -sN);
     check_exp(c, ci, nullptr, nullptr);
   }
   SU_vector a(2), v(2); a[1] = 0.3; a[3] = -0.2; v[1] = 0.7; v[2] = 0.1;
